@@ -10,6 +10,7 @@ import (
 	"fmt"
 	"net"
 	"net/http"
+	"os"
 	"sync"
 	"sync/atomic"
 	"syscall"
@@ -21,6 +22,8 @@ type fakeUpstream struct {
 	URL     string
 	hits    atomic.Int64 // HTTP requests that reached the handler (or connections accepted, for "reset")
 	closeFn func()
+	// comeBack (only for upstreams made by newRefusedThenHTTPUpstream): start listening on the reserved port
+	comeBack func()
 }
 
 func (f *fakeUpstream) Close() {
@@ -41,6 +44,48 @@ func newRefusedUpstream() *fakeUpstream {
 	must(err)
 	port := got.(*syscall.SockaddrInet4).Port
 	return &fakeUpstream{URL: fmt.Sprintf("http://127.0.0.1:%d", port), closeFn: func() { _ = syscall.Close(fd) }}
+}
+
+// newRefusedThenHTTPUpstream: like newRefusedUpstream (bound, not listening: ECONNREFUSED) until comeBack() is called;
+// from then on the SAME address serves h — an upstream that was down and came back.
+func newRefusedThenHTTPUpstream(h http.HandlerFunc) *fakeUpstream {
+	fd, err := syscall.Socket(syscall.AF_INET, syscall.SOCK_STREAM, 0)
+	must(err)
+	sa := &syscall.SockaddrInet4{Port: 0, Addr: [4]byte{127, 0, 0, 1}}
+	must(syscall.Bind(fd, sa))
+	got, err := syscall.Getsockname(fd)
+	must(err)
+	port := got.(*syscall.SockaddrInet4).Port
+	f := &fakeUpstream{URL: fmt.Sprintf("http://127.0.0.1:%d", port)}
+	var srv *http.Server
+	var wg sync.WaitGroup
+	f.comeBack = func() {
+		if srv != nil {
+			return
+		}
+		must(syscall.Listen(fd, 128))
+		file := os.NewFile(uintptr(fd), "upstream")
+		ln, err := net.FileListener(file) // dup()s the descriptor
+		must(err)
+		_ = file.Close()
+		fd = -1
+		srv = &http.Server{Handler: http.HandlerFunc(func(w http.ResponseWriter, r *http.Request) {
+			f.hits.Add(1)
+			h(w, r)
+		})}
+		wg.Add(1)
+		go func() { defer wg.Done(); _ = srv.Serve(ln) }()
+	}
+	f.closeFn = func() {
+		if srv != nil {
+			_ = srv.Close()
+			wg.Wait()
+		}
+		if fd >= 0 {
+			_ = syscall.Close(fd)
+		}
+	}
+	return f
 }
 
 // newResetUpstream accepts TCP connections and closes them immediately with SO_LINGER=0 (RST).
